@@ -42,7 +42,7 @@ The property:
 Your job: produce TWO different, independent source changes (A and B) to the library code under /tmp/seed@R@-@ID@/websocket/ (not the tests) such that each change BREAKS the property above, while the library still imports and the existing test-suite passes unchanged:
     cd /tmp/seed@R@-@ID@ && /venv/bin/python -m pytest -q -p no:cacheprovider websocket/tests      (must report 38 passed)
 
-Earlier rounds already produced the ideas listed below for this property, and a test harness now catches all of them. Do NOT repeat them or close variants (in particular: "only with trace logging on", "class-level cache", "second use of the same object", "exact size 65535/65536/125/126", "only over TLS / only through the dispatcher object / only with enable_multithread=False", "one-shot iterator as argument" and "setdefaulttimeout in force" have been done more than once - find different mechanisms). Done in the latest round as well: subclass passed as class_, key source after reconnect, failing automatic pong, bare-LF responses, payloads trickled in >16384 reads, non-minimal zero lengths, callbacks that are partials/instances and raise library exception types, extra response headers (extensions), state after a rejected frame, options after redirects, 64 KiB validator slices, the wsaccel branch, unsolicited pongs, leftover bytes after close, SO_LINGER, casefold look-alikes, negative limits, duplicate header lines, cert_reqs=None, aged connections (4095 frames), fragmenting senders, fd 0, bytearray-returning transports, failing header callables, peers that ping but never pong, thousands of interim responses, timeout=0 to connect(), '+' in env credentials, shared empty no_proxy list, Domain attribute spellings, commas in cookie values. Also done already: callbacks assigned after construction or from inside on_open, process-wide settings (setReconnect, setdefaulttimeout, enableTrace, environment variables incl. unrelated ones), threads invisible to the threading module, frames that merely declare a huge length, write failures followed by a reconnect of the same object, send_close() in the middle of a server message, lenient base64 / folded header lines, empty-string header values, non-dotted IPv4 spellings, socket options colliding by number. The harness is known to drive: all frame sizes up to 16 MiB, every segmentation incl. non-blocking sockets and TLS records, timeouts and write failures at every byte, 300 MiB of cumulative traffic, reconnects after losses at any point, slow transports, line-level thread preemption, many descriptors, odd Unicode (BOM, non-characters, non-ASCII digits), IPv6 literals, proxies with redirects. Think about what such a harness probably does NOT exercise: rarely used options and option combinations nobody lists together, state carried between connections or between messages or between two differently configured objects in one process, error/cleanup paths after a *previous* failure, behaviour that depends on values around internal constants, behaviour that depends on the *type* of an argument (bytes vs bytearray vs memoryview vs str subclass, int vs float vs bool, list vs tuple vs generator, dict ordering), on the locale/encoding of text, on header or option *spelling* (case, whitespace, repeated entries, empty strings vs None), ordering between two threads at a single specific point, behaviour only on the TLS or proxy (http, socks) or external-dispatcher path, process-wide state (module globals, class attributes, environment variables read at a different moment), exceptions raised from inside callbacks or key sources, off-by-one at the boundary between two internal reads, numeric edge cases (0, negative, very large, float timeouts), and interactions between two features that are individually fine.
+Earlier rounds already produced the ideas listed below for this property, and a test harness now catches all of them. Do NOT repeat them or close variants (in particular: "only with trace logging on", "class-level cache", "second use of the same object", "exact size 65535/65536/125/126", "only over TLS / only through the dispatcher object / only with enable_multithread=False", "one-shot iterator as argument" and "setdefaulttimeout in force" have been done more than once - find different mechanisms). Done in the latest round as well: subclass passed as class_, key source after reconnect, failing automatic pong, bare-LF responses, payloads trickled in >16384 reads, non-minimal zero lengths, callbacks that are partials/instances and raise library exception types, extra response headers (extensions), state after a rejected frame, options after redirects, 64 KiB validator slices, the wsaccel branch, unsolicited pongs, leftover bytes after close, SO_LINGER, casefold look-alikes, negative limits, duplicate header lines, cert_reqs=None, aged connections (4095 frames), fragmenting senders, fd 0, bytearray-returning transports, failing header callables, peers that ping but never pong, thousands of interim responses, timeout=0 to connect(), '+' in env credentials, shared empty no_proxy list, Domain attribute spellings, commas in cookie values. Done in the round before this one, too: close statuses 1005/1006/1015, all-zero mask keys, warnings turned into errors, buffers shared between two connections of one process, SO_RCVTIMEO, proxy timeouts left on the socket, per-thread (threading.local) state, `is True` on options given as 1, validation flags flipped temporarily and not restored, locks not released after a failed send, str mask keys with empty payloads, state kept after a rejected frame followed by close(), drain loops with per-read timeouts, a second status line inside the header block, str.splitlines() separators (VT, FF, U+2028 ...), requests beyond 16 KiB with non-ASCII text, tabs in header values, cipher strings for legacy TLS versions, AI_CANONNAME, iteration (`for msg in ws`) next to recv(), exception __str__ decoding a response body, on_open reading from the socket itself, bytearray/memoryview ping payloads, slow on_open, charset parameters of error bodies, unregistered status codes without reason phrase, a second '://' inside the URL, four-argument setsockopt entries, credentials with trailing blanks, CIDR entries sharing a network address, Domain attribute on the first of two Set-Cookie lines, empty cookie values, SOCKS proxies ignoring no_proxy. Also done already: callbacks assigned after construction or from inside on_open, process-wide settings (setReconnect, setdefaulttimeout, enableTrace, environment variables incl. unrelated ones), threads invisible to the threading module, frames that merely declare a huge length, write failures followed by a reconnect of the same object, send_close() in the middle of a server message, lenient base64 / folded header lines, empty-string header values, non-dotted IPv4 spellings, socket options colliding by number. The harness is known to drive: all frame sizes up to 16 MiB, every segmentation incl. non-blocking sockets and TLS records, timeouts and write failures at every byte, 300 MiB of cumulative traffic, reconnects after losses at any point, slow transports, line-level thread preemption, many descriptors, odd Unicode (BOM, non-characters, non-ASCII digits), IPv6 literals, proxies with redirects. Think about what such a harness probably does NOT exercise: rarely used options and option combinations nobody lists together, state carried between connections or between messages or between two differently configured objects in one process, error/cleanup paths after a *previous* failure, behaviour that depends on values around internal constants, behaviour that depends on the *type* of an argument (bytes vs bytearray vs memoryview vs str subclass, int vs float vs bool, list vs tuple vs generator, dict ordering), on the locale/encoding of text, on header or option *spelling* (case, whitespace, repeated entries, empty strings vs None), ordering between two threads at a single specific point, behaviour only on the TLS or proxy (http, socks) or external-dispatcher path, process-wide state (module globals, class attributes, environment variables read at a different moment), exceptions raised from inside callbacks or key sources, off-by-one at the boundary between two internal reads, numeric edge cases (0, negative, very large, float timeouts), and interactions between two features that are individually fine.
 @PREV@
 
 Requirements for each change:
